@@ -453,6 +453,31 @@ fn index_width_cases(coin: &'static Coin, only: Option<usize>) -> Vec<(String, C
         cb.push(vec![spender]);
         v.push(("eight funding transactions in wide CompactSize forms (3 widths, single fields), their first outputs spent by id".to_string(), cb));
     }
+    // "for any history of transactions": where the coinbase stands in a block - or whether there is one - is not part of the
+    // statement. A block without any coinbase whose first transaction spends an output of the range; a block whose coinbase
+    // comes second, behind a transaction that spends; a block with two coinbase-shaped transactions; a block whose only
+    // transaction pays to no address, followed in the same block by transactions that spend and pay (block 4)
+    if !want(&v) {
+        skip(&mut v);
+    } else {
+        use refmodel::chain::coinbase;
+        let mut cb = ChainBuilder::with_genesis(coin);
+        let a = |k: u8| script::p2pkh(&script::h20(170 + k));
+        let c1 = coinbase(1, 21, vec![TxOut { value: 50, script: a(1) }, TxOut { value: 60, script: a(2) }, TxOut { value: 70, script: a(3) }]);
+        let id1 = c1.txid();
+        cb.push_raw(vec![c1]);
+        let s2 = Tx { version: 1, segwit: false, inputs: vec![TxIn::spend(id1, 0)], outputs: vec![TxOut { value: 49, script: a(4) }], locktime: 0, wide: 0 };
+        let id2 = s2.txid();
+        cb.push_raw(vec![s2]); // no coinbase at all
+        let s3 = Tx { version: 1, segwit: false, inputs: vec![TxIn::spend(id2, 0), TxIn::spend(id1, 1)], outputs: vec![TxOut { value: 100, script: a(5) }], locktime: 0, wide: 0 };
+        let id3 = s3.txid();
+        cb.push_raw(vec![s3, coinbase(3, 22, vec![TxOut { value: 50, script: a(6) }]), coinbase(3, 23, vec![TxOut { value: 5000, script: a(7) }])]); // coinbase second and third
+        let data_only = Tx { version: 1, segwit: false, inputs: vec![TxIn::spend([0xab; 32], 0)], outputs: vec![TxOut { value: 0, script: script::op_return(b"nothing to see") }], locktime: 0, wide: 0 };
+        let s4 = Tx { version: 1, segwit: false, inputs: vec![TxIn::spend(id3, 0)], outputs: vec![TxOut { value: 30, script: a(8) }, TxOut { value: 0, script: script::op_return(b"x") }], locktime: 0, wide: 0 };
+        let s5 = Tx { version: 1, segwit: false, inputs: vec![TxIn::spend(id1, 2)], outputs: vec![TxOut { value: 69, script: a(1) }], locktime: 0, wide: 0 };
+        cb.push_raw(vec![coinbase(4, 24, vec![TxOut { value: 0, script: script::op_return(b"coinbase without address") }]), data_only, s4, s5]);
+        v.push(("blocks without a leading coinbase (none / second / two of them) and transactions without any address in front of spending ones".to_string(), cb));
+    }
     // a big UTXO set: 250 000 unspent outputs over 40 addresses (5 transactions of 50 000 outputs), 10 000 of them spent again
     if !want(&v) {
         skip(&mut v);
